@@ -1002,6 +1002,119 @@ func main() {
 		}
 	})
 
+	// pieces inside each other's bounding box: a "C" that leaves the box on one side falls apart into an L-shaped piece
+	// and a small rectangle in the notch of the L - the rectangle lies inside the L's bounding box but not inside the L.
+	// A hole belongs to the piece that contains it, not to the first piece whose box covers it
+	r.Explore("pieces-in-each-others-box", "box [0,10]^2; a C-shaped outer ring cut into an L and a rectangle in the notch of the L (4 rotations, mirrored or not) x every non-empty subset of 3 holes (in the rectangle, in either arm of the L) x hole start vertex x both orientations, through Polygon / MultiPolygon / Geometry: two result polygons, region on a half-unit lattice, every hole a ring of the piece that contains it", mc.Opts{MaxDev: -1, Split: 2}, func(c *mc.Ctx) {
+		rot := c.Choose(4)
+		mirror := c.Bool()
+		o := orb.CCW
+		if c.Bool() {
+			o = orb.CW
+		}
+		mask := 1 + c.Choose(7)
+		shift := c.Choose(4)
+		outer := []orb.Point{{-3, 1}, {9, 1}, {9, 9}, {6, 9}, {6, 4}, {-1, 4}, {-1, 5}, {4, 5}, {4, 8}, {-3, 8}}
+		menu := [][]orb.Point{
+			{{1, 6}, {1, 7}, {3, 7}, {3, 6}},     // in the rectangle
+			{{7, 5}, {8, 5}, {8, 8}, {7, 8}},     // in the upright arm of the L
+			{{2, 2}, {5, 2}, {5, 3.5}, {2, 3.5}}, // in the lying arm of the L
+		}
+		turn := func(ps []orb.Point, st int) orb.Ring {
+			out := make(orb.Ring, 0, len(ps)+1)
+			for i := range ps {
+				p := ps[(i+st)%len(ps)]
+				if mirror {
+					p = orb.Point{p[0], 10 - p[1]}
+				}
+				for k := 0; k < rot; k++ {
+					p = orb.Point{10 - p[1], p[0]}
+				}
+				out = append(out, p)
+			}
+			out = append(out, out[0])
+			if (shoelace(out) > 0) != (o == orb.CCW) {
+				out.Reverse()
+			}
+			return out
+		}
+		or := turn(outer, 0)
+		poly := orb.Polygon{or}
+		var holes []orb.Ring
+		for i, h := range menu {
+			if mask&(1<<i) != 0 {
+				hr := turn(h, shift)
+				hr.Reverse()
+				holes = append(holes, hr)
+				poly = append(poly, hr)
+			}
+		}
+		box := orb.Bound{Min: orb.Point{0, 0}, Max: orb.Point{10, 10}}
+		c.NonTrivial()
+		for variant := 0; variant < 3; variant++ {
+			var got orb.MultiPolygon
+			switch variant {
+			case 0:
+				got = smartclip.Polygon(box, poly.Clone(), o)
+			case 1:
+				got = smartclip.MultiPolygon(box, orb.MultiPolygon{poly.Clone()}, o)
+			default:
+				mp, ok := smartclip.Geometry(box, poly.Clone(), o).(orb.MultiPolygon)
+				if !ok {
+					c.Failf("pieces:generic", "smartclip.Geometry does not return a multi-polygon for a polygon cut into two pieces")
+					return
+				}
+				got = mp
+			}
+			desc := fmt.Sprintf("via=%s box=%v orientation=%d polygon=%v result=%v", []string{"Polygon", "MultiPolygon", "Geometry"}[variant], box, o, poly, got)
+			if len(got) != 2 {
+				c.Failf("pieces:polygons", "the box cuts the outer ring into two pieces, the result has %d polygons | %s", len(got), desc)
+				return
+			}
+			for _, gp := range got {
+				for _, gr := range gp {
+					if len(gr) < 4 || gr[0] != gr[len(gr)-1] {
+						c.Failf("pieces:ring-shape", "result ring %v is not closed | %s", gr, desc)
+						return
+					}
+				}
+				if sh := shoelace(gp[0]); (sh > 0) != (o == orb.CCW) {
+					c.Failf("pieces:winding", "outer ring %v winds against the requested orientation | %s", gp[0], desc)
+					return
+				}
+			}
+			for i := 0; i < 20; i++ {
+				for j := 0; j < 20; j++ {
+					q := orb.Point{float64(i)/2 + 1.0/7, float64(j)/2 + 1.0/11}
+					want := inFloat(or, q)
+					for _, h := range holes {
+						want = want && !inFloat(h, q)
+					}
+					if have := inMulti(got, q); have != want {
+						c.Failf("pieces:region", "point %v: in the smart-clipped result = %v, in the original region = %v | %s", q, have, want, desc)
+						return
+					}
+				}
+			}
+			for _, h := range holes {
+				inside := orb.Point{(h[0][0] + h[2][0]) / 2, (h[0][1] + h[2][1]) / 2}
+				for _, gp := range got {
+					owner := inFloat(gp[0], inside)
+					carries := false
+					for _, gr := range gp[1:] {
+						if math.Abs(math.Abs(shoelace(gr))-math.Abs(shoelace(h))) < 1e-12 && inFloat(gr, inside) {
+							carries = true
+						}
+					}
+					if owner != carries {
+						c.Failf("pieces:attachment", "the piece %v contains the hole %v: %v, carries it: %v | %s", gp[0], h, owner, carries, desc)
+						return
+					}
+				}
+			}
+		}
+	})
+
 	// open input: contiguous sub-paths cut at the box
 	r.Explore("open-subpaths", "every simple ring of 3..4 grid vertices x every contiguous sub-path that starts and ends outside the closed general-position box and contains all of the ring's contact with it, fed as an open ring with its winding: the result encloses region x box", mc.Opts{MaxDev: -1, Split: 2}, func(c *mc.Ctx) {
 		n := 3 + c.Choose(2)
